@@ -412,10 +412,10 @@ type dbHist struct {
 	db    database.DB
 	dir   string
 	n     int
-	alh   [][]byte                // 1-based
-	hdr   []*schema.TxHeader      // 1-based
-	ents  []map[string]bool       // per tx: raw key | md bytes | hvalue
-	pool  [][]byte                // hashes of the history
+	alh   [][]byte           // 1-based
+	hdr   []*schema.TxHeader // 1-based
+	ents  []map[string]bool  // per tx: raw key | md bytes | hvalue
+	pool  [][]byte           // hashes of the history
 	svc   *fakeSvc
 	cl    vclient
 	st    *memState
